@@ -1121,8 +1121,8 @@ Proof.
   set (ca' := if c_all a then map fst (ar_dims s) else c_ca_order a) in *.
   assert (map fst (sv_arrays sv) = map fst arrs) as Hk
     by (eapply Forall2_map_fst; [exact HF2 | intros x y [E _]; exact E]).
-  assert (forall d b, alookup n (ar_dims s) = Some d -> c_all a || nmem n ga = true -> In n ca') as Hinca.
-  { intros d b Hd Hc. unfold ca'. destruct (c_all a).
+  assert (forall d, alookup n (ar_dims s) = Some d -> c_all a || nmem n ga = true -> In n ca') as Hinca.
+  { intros d Hd Hc. unfold ca'. destruct (c_all a).
     - apply alookup_some_in in Hd. change n with (fst (n, d)). apply in_map, Hd.
     - cbn [orb] in Hc. rewrite Hga in Hc. apply nmem_in, Hc. }
   destruct (alookup n (sv_arrays sv)) as [[d' b']|] eqn:El; cbn [option_map fst snd].
@@ -1137,7 +1137,7 @@ Proof.
     destruct (c_all a || nmem n ga) eqn:Ec; [|reflexivity].
     destruct (alookup n (ar_dims s)) as [d|] eqn:Ed; [|reflexivity].
     destruct (alookup n (ar_bufs s)) as [b|] eqn:Eb; [|reflexivity].
-    exfalso. apply El. apply filter_In. split; [exact (Hinca d b eq_refl Ec)|].
+    exfalso. apply El. apply filter_In. split; [exact (Hinca d eq_refl eq_refl)|].
     unfold amem. rewrite Ed. reflexivity.
 Qed.
 
@@ -1164,7 +1164,7 @@ Proof.
   unfold frame in Fr.
   injection Fr as F1 F2 F3 F4 _ _ _ _ F9 F10 F11 F12 F13 F14 F15 F16 F17 F18 F19 F20 F21 F22 F23 F24 F25 F26 F27 F28 _.
   unfold gc_on. cbn -[repeat].
-  rewrite F1, F2, F3, F4, F9, F10, F11, F12, F13, F14, F15, F16, F17, F18, F19, F20, F21, F22, F23, F24, F25, F26, F27, F28.
+  rewrite ?F1, ?F2, ?F3, ?F4, ?F9, ?F10, ?F11, ?F12, ?F13, ?F14, ?F15, ?F16, ?F17, ?F18, ?F19, ?F20, ?F21, ?F22, ?F23, ?F24, ?F25, ?F26, ?F27, ?F28.
   repeat split; destruct (c_merge a), (c_all a); reflexivity.
 Qed.
 
@@ -1213,11 +1213,51 @@ Proof.
            assert (frame s6 = frame _) as Fr by (etransitivity; [exact Fr2 | exact Fr1]).
            unfold frame in Fr.
            injection Fr as _ _ _ F4 _ _ _ _ _ _ F11 F12 F13 F14 _ _ _ _ _ F20 F21 _ F23 _ _ _ _ _ _.
-           unfold gc_on. cbn. rewrite F4, F11, F12, F13, F14, F20, F21, F23. repeat split.
+           unfold gc_on. cbn. rewrite ?F4, ?F11, ?F12, ?F13, ?F14, ?F20, ?F21, ?F23. repeat split.
         -- injection Er as -> ->.
            destruct (restore_scalars_spec _ _ _ _ Ers eq_refl) as [Fr _]. unfold frame in Fr.
            injection Fr as _ _ _ F4 _ _ _ _ _ _ F11 F12 F13 F14 _ _ _ _ _ F20 F21 _ F23 _ _ _ _ _ _.
-           unfold gc_on. cbn. rewrite F4, F11, F12, F13, F14, F20, F21, F23. repeat split.
+           unfold gc_on. cbn. rewrite ?F4, ?F11, ?F12, ?F13, ?F14, ?F20, ?F21, ?F23. repeat split.
     + injection H as _ <-. right. repeat split.
   - injection H as _ <-. left. reflexivity.
+Qed.
+
+(* ------------------------------------------------------------------------------------------------ *)
+(* Part 9: gather_commons *)
+
+Lemma gather_spec dt k decls : forall acc r, gather dt k decls acc = Ok r -> NoDup acc ->
+  NoDup r /\ forall n, In n r <-> In n acc \/ exists m, In (m, k) decls /\ complete_name dt m = Ok n.
+Proof.
+  induction decls as [|[m k'] decls IH]; intros acc r H Hnd; cbn [gather] in H.
+  - injection H as <-. split; [assumption|]. intro n. split; [auto | intros [Hn|(m & [] & _)]; assumption].
+  - destruct (k' =? k) eqn:Ek.
+    + apply Z.eqb_eq in Ek. subst k'.
+      destruct (complete_name dt m) as [n'| | |] eqn:Ec; try discriminate. cbn [bind] in H.
+      assert (NoDup (if nmem n' acc then acc else acc ++ [n'])) as Hnd'.
+      { destruct (nmem n' acc) eqn:En; [assumption|].
+        apply NoDup_app_intro; [assumption | constructor; [intros [] | constructor] |].
+        intros x Hx [<-|[]]. apply nmem_in in Hx. congruence. }
+      destruct (IH _ _ H Hnd') as [R1 R2]. split; [assumption|]. intro n. rewrite R2. split.
+      * intros [Hn|(m' & Hin & Hc)].
+        -- destruct (nmem n' acc) eqn:En; [left; assumption|].
+           apply in_app_iff in Hn as [Hn|[<-|[]]]; [left; assumption|].
+           right. exists m. split; [left; reflexivity | assumption].
+        -- right. exists m'. split; [right; assumption | assumption].
+      * intros [Hn|(m' & [Heq|Hin] & Hc)].
+        -- left. destruct (nmem n' acc); [assumption | apply in_app_iff; left; assumption].
+        -- injection Heq as ->. rewrite Ec in Hc. injection Hc as <-. left.
+           destruct (nmem n' acc) eqn:En; [apply nmem_in, En | apply in_app_iff; right; left; reflexivity].
+        -- right. exists m'. split; assumption.
+    + destruct (IH _ _ H Hnd) as [R1 R2]. split; [assumption|]. intro n. rewrite R2. split.
+      * intros [Hn|(m' & Hin & Hc)]; [left; assumption | right; exists m'; split; [right|]; assumption].
+      * intros [Hn|(m' & [Heq|Hin] & Hc)]; [left; assumption | | right; exists m'; split; assumption].
+        injection Heq as -> ->. rewrite Z.eqb_refl in Ek. discriminate.
+Qed.
+
+(* the gathered set: the completed names of the declarations of one kind, each once *)
+Theorem gather_commons_spec dt k decls r : gather dt k decls [] = Ok r ->
+  NoDup r /\ forall n, In n r <-> exists m, In (m, k) decls /\ complete_name dt m = Ok n.
+Proof.
+  intro H. destruct (gather_spec dt k decls [] r H (NoDup_nil _)) as [H1 H2]. split; [assumption|].
+  intro n. rewrite H2. split; [intros [[]|Hx]; exact Hx | auto].
 Qed.
